@@ -48,6 +48,12 @@ func UnpackLayer(dest string, layer io.Reader, options *TarOptions) (size int64,
 
 		size += hdr.Size
 
+		// PAX global headers describe the stream, not a file: ignore them as Unpack does,
+		// before anything is removed or created on behalf of their name.
+		if hdr.Typeflag == tar.TypeXGlobalHeader {
+			continue
+		}
+
 		// Normalize name, for safety and for a simple is-root check
 		hdr.Name = filepath.Clean(hdr.Name)
 
